@@ -37,7 +37,7 @@ def emitted_for(lal, tag, term_text):
     os.makedirs(d, exist_ok=True)
     if not os.path.exists(os.path.join(d, "out")):
         open(os.path.join(d, "g.lalrpop"), "w").write(text)
-        p = subprocess.run([lal, "-f", "g.lalrpop"], cwd=d, stdout=subprocess.PIPE, stderr=subprocess.STDOUT, text=True, timeout=60, errors="replace")
+        p = subprocess.run([lal, "-f", "g.lalrpop"], cwd=d, stdout=subprocess.PIPE, stderr=subprocess.STDOUT, text=True, timeout=900, errors="replace")
         open(os.path.join(d, "out"), "w").write("%d\n%s" % (p.returncode, p.stdout[-2000:]))
     out = open(os.path.join(d, "out")).read()
     if not os.path.exists(os.path.join(d, "g.rs")):
